@@ -22,6 +22,7 @@ CLASSES = {
     'support': {'quick': 2400, 'thorough': 120000},
     'robust': {'quick': 1600, 'thorough': 80000},
     'defs': {'quick': 3200, 'thorough': 160000},
+    'metrics': {'quick': 1500, 'thorough': 60000},
 }
 MIN_EVENTS = {'quick': {'assert:target': 3000, 'assert:keeps': 3000, 'assert:def': 5000}}
 
@@ -300,8 +301,69 @@ def run_defs(rng, obs):
     obs.nontrivial = len(set(x)) >= 3 and (w is None or weighted_nontrivial(w))
 
 
+def run_metrics(rng, obs):
+    """L-p norms and the point-to-point metrics in their documented usages: default arguments, every p incl. 0 / inf / fractional, norms
+    along an axis, distance matrices between two sets of points (pair=False, axis=0), row-wise distances (pair=True, axis=1), 1-D vectors
+    upconverted with dmin=2, a set of points against itself (xp omitted)"""
+    import mystic.math.distance as md
+    G = [0.0, 1.0, -2.5, 3.0, 0.5, -1.0, 7.25]
+    d = rng.randint(1, 4); a = rng.randint(1, 4); b = rng.randint(1, 4)
+    X = [[rng.choice(G) for _ in range(d)] for _ in range(a)]
+    Y = [[rng.choice(G) for _ in range(d)] for _ in range(b)]
+    if rng.random() < 0.3 and a == b: Y = [list(r) for r in X]; Y[rng.randrange(b)][rng.randrange(d)] += 1.0     # mostly equal coordinates: hamming has something to count
+    obs.desc = {'X': X, 'Y': Y}
+    ck = lambda ok, what, **kw: obs.check(ok, 'def:' + what, X=X, Y=Y, **kw)
+    P = {'chebyshev': math.inf, 'hamming': 0, 'euclidean': 2, 'manhattan': 1, 'minkowski': 3}
+    def fl(z): return [[float(v) for v in r] for r in np.asarray(z, dtype=float).reshape(np.asarray(z).shape[0], -1)] if np.asarray(z).ndim >= 2 else [float(v) for v in np.ravel(z)]
+    # ---- norms
+    v = [rng.choice(G) * rng.choice([1, 1, 10]) for _ in range(rng.randint(1, 6))]
+    ck(R.close(float(md.Lnorm(v)), R.lnorm(v, 1)), 'Lnorm defaults to the L-1 norm', v=v, observed=float(md.Lnorm(v)), expected=R.lnorm(v, 1))
+    for p in (0, 1, 2, 3, 7, math.inf):          # (p is documented as an integer in [0, inf])
+        ck(R.close(float(md.Lnorm(v, p)), R.lnorm(v, p)), 'Lnorm is (sum |w|^p)^(1/p) (count of non-zeros for p=0, max for p=inf)', p=p, v=v,
+           observed=float(md.Lnorm(v, p)), expected=R.lnorm(v, p))
+    M = np.array(X)
+    for ax in (0, 1):
+        p = rng.choice([0, 1, 2, 3, math.inf])
+        got = md.Lnorm(M, p, axis=ax)
+        want = [R.lnorm(col, p) for col in (M.T.tolist() if ax == 0 else M.tolist())]
+        ck(np.asarray(got).shape == ((1, d) if ax == 0 else (a, 1)) and all(R.close(float(g), w_) for g, w_ in zip(np.ravel(got), want)),
+           'Lnorm along an axis is the norm of every column / row (the reduced axis is kept)', p=p, axis=ax, observed=np.asarray(got).tolist(), expected=want)
+    # ---- distance matrix between two sets of points: metric(X, Y, axis=0)[i, j] = metric(X[i], Y[j])
+    for name, p in P.items():
+        f = getattr(md, name)
+        kw = {} if (name != 'minkowski' or rng.random() < 0.5) else {'p': 3}
+        got = np.asarray(f(X, Y, axis=0, **kw))
+        want = [[R.dist(X[i], Y[j], p) for j in range(b)] for i in range(a)]
+        ck(got.shape == (a, b) and all(R.close(float(got[i][j]), want[i][j]) for i in range(a) for j in range(b)),
+           'distance matrix (pair=False, axis=0) holds the metric between every pair of points', metric=name, observed=got.tolist(), expected=want)
+        selfd = np.asarray(f(X, axis=0, **kw))
+        wself = [[R.dist(X[i], X[j], p) for j in range(a)] for i in range(a)]
+        ck(selfd.shape == (a, a) and all(R.close(float(selfd[i][j]), wself[i][j]) for i in range(a) for j in range(a)),
+           'with the second set omitted the points are compared with themselves (symmetric, zero diagonal)', metric=name, observed=selfd.tolist(), expected=wself)
+    # ---- row-wise distances of two equally shaped sets: metric(X, Z, pair=True, axis=1)[i] = metric(X[i], Z[i])
+    Z = [[rng.choice(G) for _ in range(d)] for _ in range(a)]
+    for name, p in P.items():
+        f = getattr(md, name)
+        got = np.ravel(f(X, Z, pair=True, axis=1))
+        want = [R.dist(X[i], Z[i], p) for i in range(a)]
+        ck(len(got) == a and all(R.close(float(g), w_) for g, w_ in zip(got, want)), 'row-wise distances (pair=True, axis=1)', metric=name, Z=Z, observed=got.tolist(), expected=want)
+        # other p for minkowski; vectors: pair=True without axis is the metric of the two vectors; dmin=2 upconverts a vector to ONE point
+        x1, z1 = X[0], Z[0]
+        got1 = float(np.ravel(f(x1, z1, pair=True))[0]) if np.ndim(f(x1, z1, pair=True)) else float(f(x1, z1, pair=True))
+        ck(R.close(got1, R.dist(x1, z1, p)), 'point-to-point distance equals its textbook definition', metric=name, v=x1, u=z1, observed=got1, expected=R.dist(x1, z1, p))
+        got2 = np.asarray(f(x1, z1, dmin=2, axis=0))
+        ck(got2.size == 1 and R.close(float(np.ravel(got2)[0]), R.dist(x1, z1, p)), 'a vector upconverted with dmin=2 is one point: a 1x1 distance matrix', metric=name,
+           v=x1, u=z1, observed=got2.tolist(), expected=R.dist(x1, z1, p))
+    for p in (0.5, 1, 2, 4, math.inf):
+        got = float(np.ravel(md.minkowski(X[0], Z[0], pair=True, p=p))[0]) if np.ndim(md.minkowski(X[0], Z[0], pair=True, p=p)) else float(md.minkowski(X[0], Z[0], pair=True, p=p))
+        ck(R.close(got, R.dist(X[0], Z[0], p)), 'minkowski distance is the p-norm of the difference', p=p, v=X[0], u=Z[0], observed=got, expected=R.dist(X[0], Z[0], p))
+    obs.event('metric_cases')
+    obs.nontrivial = a >= 2 and b >= 2 and d >= 2
+    obs.notes = {'shape': [a, b, d]}
+
+
 def run_case(cls, idx, rng, obs):
     import warnings
     warnings.simplefilter('ignore')
     np.seterr(all='ignore')
-    return {'impose': run_impose, 'support': run_support, 'robust': run_robust, 'defs': run_defs}[cls](rng, obs)
+    return {'impose': run_impose, 'support': run_support, 'robust': run_robust, 'defs': run_defs, 'metrics': run_metrics}[cls](rng, obs)
